@@ -146,6 +146,7 @@ def build_harness():
         for p in sorted(glob.glob(os.path.join(VERIF, 'harness', '*'))):
             if os.path.isfile(p):
                 hh.update(open(p, 'rb').read())
+        hh.update(REPO.encode())
         key = th + '-' + hh.hexdigest()[:12]
         binp = os.path.join(WORK, 'bin', 'harness-%s.test' % key)
         if os.path.exists(binp):
@@ -154,6 +155,11 @@ def build_harness():
             if time.time() - os.path.getmtime(old) > 600:
                 os.remove(old)
         shutil.copy(os.path.join(REPO, 'go.sum'), os.path.join(VERIF, 'harness', 'go.sum'))
+        gm = os.path.join(VERIF, 'harness', 'go.mod')
+        want = open(gm).read()
+        want = re.sub(r'(replace git\.sr\.ht/~adrian-blx/psa-dhcp => ).*', r'\g<1>' + REPO, want)
+        if want != open(gm).read():
+            open(gm, 'w').write(want)
         rc, out = run(['go1.26.8', 'test', '-c', '-tags', 'verif', '-o', binp + '.tmp', '.'], 900,
                       cwd=os.path.join(VERIF, 'harness'), env=GOENV)
         if rc != 0:
